@@ -56,6 +56,7 @@ def runOp (p : List String) : String :=
   | "routerframes" :: _ => "routerframes=ok"  -- C02: a frame-by-frame ROUTER message is not torn by what other peers do meanwhile
   | "errclose" :: _ => "errclose=closed"  -- C07/C19/C20: an error, a dead peer or close() ends the connection and the peer sees it
   | "routerlate" :: _ => "routerlate=ok"  -- C11: what a ROUTER delivers of a peer that has gone carries that peer's announced identity
+  | "comeback" :: _ => "comeback=ok"      -- C17: a lost connection is retried and traffic resumes once the peer is back
   | "bystander" :: _ => "bystander=ok"    -- C17: what another socket of the context does never stops this socket's retries
   | ["subhist", _, history, probes] =>
     -- C12: the probes that arrive are those some ACTIVE subscription is a prefix of (subscriptions are counted)
